@@ -64,13 +64,7 @@ func excluded(k *Case) string {
 	case trigFloatDivConstZero:
 		return "" // F-C02-1 is repaired in /repo: back in the bulk programs
 	case trigUntypedShiftOperand:
-		if negCount(k) {
-			return "drop" // two findings at once: not run
-		}
-		if k.T != "int" {
-			return "" // typed comparand: a wrong value or a recovered panic, the program goes on
-		}
-		return "F-C02-2 " + k.Ctx + " " + k.Op
+		return "" // F-C02-2a/b/c and F-C02-4 are repaired in /repo (33a1631, 5d7c256, e6d4589): back in the bulk programs
 	case trigIncDecUintptr:
 		return "" // F-C02-3 is repaired in /repo: back in the bulk programs
 	case trigIfaceAssign:
